@@ -54,6 +54,9 @@ static bool g_persist = false; static int g_persist_kind = -1; static int g_pers
 static int g_ctx_op[32];
 static uint32_t g_ctx_seq[32];
 static bool g_madv_free_unsupported_reported = false;
+struct RefusedRW { uint64_t addr, len; int prog, op; };
+static std::vector<RefusedRW> g_refused_rw;       // mprotect(READ|WRITE) calls that were refused
+const char* (*g_op_name_of)(int prog, int op) = nullptr;
 
 void os_init() {
   g_orng.seed(g_cfg.os_seed ? g_cfg.os_seed : mix64(g_cfg.seed, 0x05));
@@ -185,8 +188,12 @@ const char* os_describe_addr(const void* p, char* buf, size_t n) {
   Region* r = region_containing(a);
   if (r) {
     uint64_t pg = (a - r->start) / PAGE;
-    snprintf(buf, n, "inside mapping #%u [0x%llx,+0x%llx) created by vt%d op%d%s; page is %s", r->id, (unsigned long long)r->start, (unsigned long long)r->len,
+    int w = snprintf(buf, n, "inside mapping #%u [0x%llx,+0x%llx) created by vt%d op%d%s; page is %s", r->id, (unsigned long long)r->start, (unsigned long long)r->len,
              r->vt, r->op, r->donated ? " (donated by harness)" : "", r->prot[pg] ? "read/write" : "PROT_NONE (reserved/decommitted/guard)");
+    for (auto& x : g_refused_rw) if (a >= x.addr && a < x.addr + x.len && w > 0 && (size_t)w < n) {
+      snprintf(buf + w, n - (size_t)w, "; mprotect(READ|WRITE) of this page (len 0x%llx) was refused earlier in thread %d op %d (%s)", (unsigned long long)x.len, x.prog, x.op, g_op_name_of ? g_op_name_of(x.prog, x.op) : "?");
+      break;
+    }
   } else {
     auto it = g_regions.upper_bound(a);
     uint64_t prev_end = 0, next_start = 0;
@@ -302,7 +309,7 @@ extern "C" int sim_mprotect(void* addr, size_t len, int prot) {
   if ((a % PAGE) != 0) { errno = EINVAL; log_call(kind, a, len, 0, EINVAL, false); return -1; }
   if (l == 0) { log_call(kind, a, len, 0, 0, false); return 0; }
   int inj = fault_check(kind);
-  if (inj) { errno = inj; log_call(kind, a, len, 0, inj, true); return -1; }
+  if (inj) { if (rw && g_refused_rw.size() < 1000) { int v = cur_vt(); g_refused_rw.push_back(RefusedRW{a, l, v, g_ctx_op[v & 31]}); } errno = inj; log_call(kind, a, len, 0, inj, true); return -1; }
   if (!os_in_window(addr) || !range_covered(a, l)) {
     g_os.foreign_calls++;
     log_call(kind, a, len, 0, ENOMEM, false);
